@@ -129,3 +129,28 @@ func VP_C08_unpack_plain() {
 	}
 	vp.Cover("end")
 }
+
+// frame unpacking with compression enabled: arbitrary header fields, arbitrary
+// (really compressed, or raw) content, arbitrary threshold.
+func VP_C08_unpack_compressed() {
+	t := vp.Int()
+	vp.Assume(t >= 0)
+	vp.SizeBound(12)
+	var stream []byte
+	switch vp.Choice(3) {
+	case 0: // arbitrary bytes
+		stream = vp.Bytes(vp.Choice(vpC08N() + 1))
+	case 1: // consistent outer length, arbitrary data length, deflated arbitrary content
+		body := append(vpVarIntRef(vp.Int32()), vp.Deflate(vp.Bytes(vp.Choice(4)))...)
+		stream = append(vpVarIntRef(int32(len(body))), body...)
+	default: // arbitrary outer length too
+		body := append(vpVarIntRef(vp.Int32()), vp.Deflate(vp.Bytes(vp.Choice(3)))...)
+		stream = append(vpVarIntRef(vp.Int32()), body...)
+	}
+	var p Packet
+	if vp.Choice(2) == 1 {
+		p.Data = vp.Bytes(3)
+	}
+	p.UnPack(bytes.NewReader(stream), t)
+	vp.Cover("end")
+}
